@@ -8,13 +8,13 @@ TB = ("Trusted: Coq 8.16.1 kernel (no axioms: every property theorem is closed u
 CLAIMS = {
  "C01": ("Unbounded theorems C01_load_layout / C01_store_layout: the statement-by-statement model of ops.rs places every field bit at the documented physical position for all orders, carriers, buffer lengths and in-bounds ranges; tied to /repo by running extracted model and real ops on an exhaustive geometry each run; DedupCast table translated from source and its adequacy re-proved.",
          "64-bit host only exercised (16/32-bit DedupCast rows proved, not run). " + TB, "5 C01"),
- "C02": ("Theorems C02_isolation, C02_load_local, C02_roundtrip_unsigned, C02_roundtrip_signed_full, C02_setter_sequences (induction over any list of disjoint setter calls) over the ops.rs model; the signed-narrow clause is refuted by C02_signed_narrow_refuted (genuine defect D1, known finding) with C02_roundtrip_signed_narrow_partial as the strongest true statement; tie = exhaustive-geometry correspondence + an implementation-only round-trip/isolation oracle.",
-         "Generated set_x()/x() sequences (L2) are covered through the C06 check, not here. " + TB, "5 C02"),
+ "C02": ("Theorems C02_isolation, C02_load_local, C02_roundtrip_unsigned, C02_roundtrip_signed_full, C02_setter_sequences (induction over any list of disjoint setter calls) over the ops.rs model; the signed-narrow clause is refuted by C02_signed_narrow_refuted (genuine defect D1, known finding) with C02_roundtrip_signed_narrow_partial as the strongest true statement; tie = exhaustive-geometry correspondence + an implementation-only round-trip/isolation oracle + generated level: sequences of setter calls on COMPILED generated field sets (every set-bit outside the declared range unchanged by physical position, disjoint fields read as before, read-back, bytes = FieldSetGen.setter_call on the real MIR).",
+         "The generated-level phase samples definitions and sequences (boundary-biased), it is not exhaustive. " + TB, "5 C02"),
 
  "C05": ("Unbounded theorems over an interaction model of register.rs (blocking and async halves transcribed separately): C05_write, C05_write_with_zero, C05_read, C05_modify (no write after a failed read), C05_async_equiv / C05_async_equiv_seq (same interface calls and results for every oracle, closure and Pending schedule); tie = exhaustive scripted histories (ops x error positions x Pending counts) run through the real crate with mock interfaces and a hand-rolled executor vs the extracted model.",
          "The compiler's async lowering is modelled as 'Pending any finite number of times at each await' and tied only by the correspondence; the ref-reset clause is covered with C08. " + TB, "5 C05"),
- "C09": ("Theorems C09_dispatch_none/in/out/inout and C09_async_equiv over the transcribed command.rs for all oracles, closures, sizes and schedules; tie = exhaustive scripted histories over the four shapes x sizes x error/Pending patterns vs the extracted model.",
-         "Async lowering modelled as arbitrary finite Pending counts. Generator side (unit type iff no fields) is observed in C04/C19. " + TB, "5 C09"),
+ "C09": ("Theorems C09_dispatch_none/in/out/inout and C09_async_equiv over the transcribed command.rs for all oracles, closures, sizes and schedules; tie = exhaustive scripted histories over the four shapes x sizes x error/Pending patterns vs the extracted model. Generator clause (CmdShape.v): C09_unit_iff_no_fields, C09_generated_dispatch (composition with the four proven bodies: exactly one call; declared size and ceil(size/8) bytes in a direction with fields, (0, empty) in one without), C09_transferred_sizes, C09_ref_takes_target_shape; tie = command-centred definitions through the real generator: accessor type parameters from the token stream and dispatch_command arguments of the compiled accessor vs CmdShape.v on the real MIR and the property's wording.",
+         "Async lowering modelled as arbitrary finite Pending counts. CmdShape.v is a hand transcription of get_method's command arm. " + TB, "5 C09"),
  "C10": ("Theorems C10_passthrough, C10_write_all(+meaning), C10_read_exact(+meaning), C10_async_equiv, C10_trait_equiv (incl. termination by fuel lemma) over the transcribed buffer.rs and the embedded-io provided methods; tie = every outcome sequence over {accept 1..n, 0, Err} at the bound x entry points (inherent / trait / async) vs the extracted model.",
          "embedded-io 0.6.1 provided methods transcribed from the registry source. " + TB, "5 C10"),
  "C06": ("C06_emitted_sets_are_the_declared_ones, C06_getter_reads_declared_range / C06_setter_writes_declared_range (composition of the emission model with the C01 layout theorems), C06_carrier_minimal, C06_getter_iff_readable / setter_iff_writable, C06_effective_byte_order; tie = every field-set fact of the real token stream vs FieldSetGen.v on the real MIR in all four syntaxes + an abstract-definition oracle for effective orders/access (finds D5, known finding) + compiled field sets driven with bytes vs the Coq reference interpreter.",
